@@ -166,6 +166,152 @@ def _bool_sites(bv, c, l, want, depth=0):
     return out
 
 
+def _flag_sites(bv, c, l, want, depth=0):
+    """Like _bool_sites, but a computed definition counts too: [(block, term or None)] — the blocks at which the boolean
+    local `l` may receive `want`; term is the computed value (None for a constant).  None when a definition is negated
+    computation or otherwise unreadable."""
+    from .. import optnorm
+    if depth > 4:
+        return None
+    out = []
+    for (bi, si, kind, x) in bv.defs.get(l, []):
+        if bi not in bv.reach0:
+            continue
+        if kind == "call":
+            # the value of a call: readable only if it is a comparison / presence test / their combinators
+            t = bv._trace_call(bi, x, frozenset(), 0)
+            if not _readable_cond(t):
+                return None
+            out.append((bi, t))
+            continue
+        if kind != "rv":
+            return None
+        v = lib.term_const(c, bv._trace_rv(x, None, 0)) if x["k"] in ("use",) and "k" in x.get("o", {}) else None
+        if v in (0, 1):
+            if bool(v) == want:
+                out.append((bi, None))
+            continue
+        src = None
+        neg = False
+        if x["k"] == "use":
+            src = x["o"].get("m") or x["o"].get("c")
+        elif x["k"] == "unop" and x.get("op") == "Not":
+            src = x["o"].get("m") or x["o"].get("c")
+            neg = True
+        if src is not None and not src.get("p") and bv.crate.types[bv.locals[src["l"]]["t"]]["s"] == "bool" and bv.defs.get(src["l"]):
+            sub = _flag_sites(bv, c, src["l"], (not want) if neg else want, depth + 1)
+            if sub is None:
+                return None
+            out += sub
+            continue
+        if src is not None and src.get("p") and len(src["p"]) == 1 and src["p"][0].get("k") == "field" and not neg:
+            # `let (a, flag) = (x, cond);`: the flag is a field of a tuple built once — read the operand it was built from
+            tds = [d for d in bv.defs.get(src["l"], []) if d[0] in bv.reach0]
+            if len(tds) == 1 and tds[0][2] == "rv" and tds[0][3]["k"] == "agg" and tds[0][3].get("ak") == "tuple":
+                op_ = tds[0][3]["ops"][src["p"][0]["i"]]
+                pl_ = op_.get("m") or op_.get("c")
+                if pl_ is not None and not pl_.get("p") and bv.defs.get(pl_["l"]) and bv.crate.types[bv.locals[pl_["l"]]["t"]]["s"] == "bool":
+                    sub = _flag_sites(bv, c, pl_["l"], want, depth + 1)
+                    if sub is None:
+                        return None
+                    out += sub
+                    continue
+        if neg:
+            return None
+        t = optnorm.simplify(bv._trace_rv(x, None, 0))
+        tc = lib.term_const(c, strip(t))
+        if tc in (0, 1):
+            if bool(tc) == want:
+                out.append((bi, None))
+            continue
+        if strip(t)[0] == "phi":
+            # `a && b` as a value: the alternatives are the constant false and b
+            for a_ in strip(t)[1]:
+                ac = lib.term_const(c, strip(a_))
+                if ac in (0, 1):
+                    if bool(ac) == want:
+                        out.append((bi, None))
+                elif _readable_cond(a_):
+                    out.append((bi, a_))
+                else:
+                    return None
+            continue
+        if not _readable_cond(t):
+            return None
+        out.append((bi, t))
+    return out
+
+
+def _readable_cond(t):
+    """A boolean term this analysis can read: ==, is_some/is_none, map_or(false, ..), is_some_and, `&`, merges of those."""
+    t = strip(t)
+    if t[0] == "phi":
+        return all(_readable_cond(a_) or strip(a_)[0] == "const" for a_ in t[1])
+    if t[0] == "binop" and t[1] in ("BitAnd", "Eq", "Ne"):
+        return True
+    if t[0] == "call":
+        cal = lib.norm(t[1])
+        return cal in ("std::cmp::PartialEq::eq", "std::cmp::PartialEq::ne") or cal.endswith("Option::<T>::is_some") or cal.endswith("Option::<T>::is_none") or cal.endswith("Option::<T>::map_or") or cal.endswith("Option::<T>::is_some_and")
+    return False
+
+
+def _implies(W, bv, t, atom, depth=0):
+    """Does the boolean term `t` being true imply a sub-condition satisfying atom(bv, term)?  Looks through
+    `opt.map_or(false, |x| ..)`, `opt.is_some_and(|x| ..)`, `a & b` and merged alternatives (all must imply it)."""
+    from .. import optnorm
+    if depth > 6:
+        return False
+    t = strip(t)
+    if atom(bv, t):
+        return True
+    if t[0] == "phi":
+        alts_ = [a_ for a_ in t[1] if lib.term_const(bv.crate, strip(a_)) != 0]
+        return bool(alts_) and all(_implies(W, bv, a_, atom, depth + 1) for a_ in alts_)
+    if t[0] == "binop" and t[1] == "BitAnd":
+        return _implies(W, bv, t[2], atom, depth + 1) or _implies(W, bv, t[3], atom, depth + 1)
+    if t[0] == "call":
+        cal = lib.norm(t[1])
+        clo_arg = None
+        if cal.endswith("Option::<T>::map_or") and len(t[2]) == 3 and lib.term_const(bv.crate, strip(t[2][1])) == 0:
+            clo_arg = t[2][2]
+        elif cal.endswith("Option::<T>::is_some_and") and len(t[2]) == 2:
+            clo_arg = t[2][1]
+            if atom(bv, ("call", "std::option::Option::<T>::is_some", [t[2][0]])):
+                return True
+        if clo_arg is not None:
+            clo = optnorm._closure_of(clo_arg)
+            if clo is not None and clo[2] in W.by_id:
+                cb = W.bv(clo[2])
+                body = optnorm.simplify(lib.subst_params(optnorm._ann(cb), [clo, optnorm.payload_of(W, bv, t[2][0])]))
+                return _implies(W, cb, body, atom, depth + 1)
+    return False
+
+
+def _is_some_finish(bv, t):
+    return t[0] == "call" and lib.norm(t[1]).endswith("Option::<T>::is_some") and "update_finish_time" in fmt_t(t)
+
+
+def _eq_target_version(W):
+    """atom: `<stored target version> == config.os.version` where a missing target version is not turned into a value
+    (`unwrap_or_default() == version` reports for a machine whose version string is empty and no target was stored)."""
+    from .. import optnorm
+
+    def atom(bv, t):
+        if not (t[0] == "call" and t[1] == "std::cmp::PartialEq::eq" and len(t[2]) == 2):
+            return False
+        sides = [fmt_t(a_) for a_ in t[2]]
+        tv = [i for i, s_ in enumerate(sides) if "'target_version'" in s_]
+        ov = [i for i, s_ in enumerate(sides) if "os.version" in s_]
+        if not tv or not ov or tv == ov and len(tv) == 1:
+            return False
+        # a default in the stored side turns "nothing stored" into a value that can equal the running version
+        for x in walk(t[2][tv[0]]):
+            if x[0] == "call" and lib.norm(x[1]).split("::")[-1] in ("unwrap_or", "unwrap_or_else", "unwrap_or_default"):
+                return False
+        return True
+    return atom
+
+
 def nodes_of(S, bv, bi):
     return [n.idx for n in S.nodes if n.ctx.bv is bv and n.bi == bi and n.idx in S.live]
 
@@ -408,13 +554,14 @@ def run(F, R):
     rep = [(bi, t) for bi, t in rv.calls() if t.get("callee_id") in W.by_id and any(lib.callee_is(t2, "wall_duration_since") for _, t2 in W.bv(t["callee_id"]).calls())]
     if R.floor("C18-R4", "report call in the long-running task", len(rep), 1):
         rbi, rt = rep[0]
-        # flag local: a user bool, set from constants (possibly through temporaries / negation), tested before the report
+        # flag local: a user bool tested before the report; set from constants (possibly through temporaries / negation)
+        # or computed (`finish.is_some() && target == version`)
         flag = None
         for l, ds in rv.defs.items():
             if rv.crate.types[rv.locals[l]["t"]]["s"] != "bool" or not rv.locals[l].get("u"):
                 continue
-            ts_ = _bool_sites(rv, c, l, True)
-            fs_ = _bool_sites(rv, c, l, False)
+            ts_ = _flag_sites(rv, c, l, True)
+            fs_ = _flag_sites(rv, c, l, False)
             if ts_ and fs_:
                 # the flag that is tested right before the report call
                 ft = rv.trace_local(l)
@@ -427,14 +574,18 @@ def run(F, R):
             fterm = rv.trace_local(flag)
             flag_true = [(a, b) for (a, b, tr) in rv.bool_edges(lambda t: t == fterm, whole=True) if tr]
             R.check("C18-R4", "report-guarded-by-flag", flag_true and rv.dominated_by_edge(rbi, flag_true), "report only while the flag is set", "the duration is reported without consulting the report-once flag", lib.loc(rv, rbi))
-            sets_true = _bool_sites(rv, c, flag, True)
+            sites_true = _flag_sites(rv, c, flag, True)
+            sets_true = [b for b, _ in sites_true]
             comps = rv.sccs()
             inloop = lambda b: any(b in L for L in comps)
-            resets = [bi for bi in _bool_sites(rv, c, flag, False) if inloop(bi)]
+            resets = [bi for bi, tm_ in _flag_sites(rv, c, flag, False) if inloop(bi) and tm_ is None]
             some_fin = [(a, b) for (a, b, tr) in rv.bool_edges(lambda t: t[0] == "call" and t[1].endswith("Option::<T>::is_some") and "update_finish_time" in lib.apath(t)) if tr]
-            eq_os = lib.equal_edges(rv, lambda t: "'target_version'" in lib.apath(t) and "os.version" in lib.apath(t))
-            R.check("C18-R4", "flag-set-only-if-finish-time", sets_true and some_fin and all(rv.dominated_by_edge(b, some_fin) for b in sets_true), "flag set only when a finish time is stored", "the flag is set without a stored finish time")
-            R.check("C18-R4", "flag-set-only-on-target-version", sets_true and eq_os and all(rv.dominated_by_edge(b, eq_os) for b in sets_true), "flag set only when stored target version == config.os.version", "the flag is set although the running version is not the target version")
+            eq_atom = _eq_target_version(W)
+            eq_os = lib.equal_edges(rv, lambda t: eq_atom(rv, ("call", "std::cmp::PartialEq::eq", t[2])))
+            fin_ok = bool(sites_true) and all((some_fin and rv.dominated_by_edge(b, some_fin)) or (tm_ is not None and _implies(W, rv, tm_, _is_some_finish)) for b, tm_ in sites_true)
+            R.check("C18-R4", "flag-set-only-if-finish-time", fin_ok, "flag set only when a finish time is stored", "the flag is set without a stored finish time")
+            ver_ok = bool(sites_true) and all((eq_os and rv.dominated_by_edge(b, eq_os)) or (tm_ is not None and _implies(W, rv, tm_, eq_atom)) for b, tm_ in sites_true)
+            R.check("C18-R4", "flag-set-only-on-target-version", ver_ok, "flag set only when a stored target version == config.os.version", "the flag is set although no stored target version equals the running version (a missing one compared as a default value counts as not stored)")
             okE = []
             for sb in sorted(rv.reach0):
                 si = guards.switch_info(rv, sb)
@@ -461,7 +612,10 @@ def run(F, R):
                     "the start instant is taken after storage operations: the time spent waiting for the storage is reported as time waited for the reboot", lib.loc(rv, start[0]) if start else None)
             a_fin = terms.render(rv, rv.trace_op(rt["args"][1]), W, {})
             a_start = terms.render(rv, rv.trace_op(rt["args"][2]), W, {})
-            R.check("C18-R4", "report-arguments", "get_time(" in a_fin and "'update_finish_time'" in a_fin and a_start.startswith("now_in_monotonic("), "report(finish time from storage, start instant, now)", "report arguments: %s ; %s" % (a_fin[:80], a_start[:80]))
+            if "get_time(" not in a_fin and "(param1" in a_fin:
+                R.inconclusive("C18-R4", "report-arguments", "the finish time handed to the report comes out of a helper this rule does not read: %s" % a_fin[:80])
+            else:
+                R.check("C18-R4", "report-arguments", "get_time(" in a_fin and "'update_finish_time'" in a_fin and a_start.startswith("now_in_monotonic("), "report(finish time from storage, start instant, now)", "report arguments: %s ; %s" % (a_fin[:80], a_start[:80]))
     # ---------------------------------------------------------------- R5 checked arithmetic only
     R.rule("C18-R5", "the duration computation uses checked operations only (no panic-capable site)")
     if rep:
